@@ -381,6 +381,13 @@ class SInt(SNum):
     def __hash__(self):
         return hash(CUR.realize_int(self.e))
 
+    def __str__(self):
+        return str(CUR.realize_int(self.e)) if CUR is not None \
+            else repr(self)
+
+    def __format__(self, spec):
+        return format(CUR.realize_int(self.e), spec)
+
     def __lshift__(self, o):
         if isinstance(o, int):
             return SInt(self.e * (1 << o))
@@ -829,7 +836,7 @@ class SymCtx:
     def _finding(self, kind, label, model, exc=None):
         if len(self.findings) >= 200:
             return
-        w = self.witness(model)
+        w = self.witness(model, generic=(model is None))
         if w is None:
             self.stats.unknown += 1
             self.unknown_labels.append(f"no model for finding: {label}")
@@ -838,7 +845,20 @@ class SymCtx:
                               'witness': w, 'notes': dict(self.notes),
                               'path_unknown': self.path_unknown})
 
-    def witness(self, model=None):
+    def witness(self, model=None, generic=False):
+        if model is None and generic:
+            # prefer a witness whose numeric inputs are pairwise distinct
+            # and non-zero: identity obligations ("this output IS that
+            # input") only show on such values when replayed
+            nums = [t for _, t in self.inputs
+                    if t.sort() != z3.BoolSort() and not z3.is_int_value(t)
+                    and t.sort() == z3.RealSort()]
+            if 1 <= len(nums) <= 40:
+                extra = [t != 0 for t in nums]
+                if len(nums) > 1:
+                    extra.append(z3.Distinct(*nums))
+                if self._check(*extra) == z3.sat:
+                    model = self._model()
         if model is None:
             r = self._check()
             if r != z3.sat:
@@ -959,6 +979,10 @@ class ConcreteCtx:
             label or f"{type(exc).__name__}: {str(exc)[:200]}")
 
     def eq(self, a, b):
+        if hasattr(a, 'item') and getattr(a, 'shape', None) == ():
+            a = a.item()
+        if hasattr(b, 'item') and getattr(b, 'shape', None) == ():
+            b = b.item()
         try:
             return abs(a - b) <= self.tol * max(1.0, abs(a), abs(b))
         except TypeError:
